@@ -90,19 +90,50 @@ def job_gemini():
         cls = getattr(loader.load(modn), cname)
         attr, pattr, gcls, what = ("kernel", "kernel_params", "MMDGEMINI", "kernel") if which == "mmd" else ("metric", "metric_params", "WassersteinGEMINI", "distance")
         names = (["linear", "rbf", "sigmoid"] if which == "mmd" else ["euclidean", "cosine", "manhattan"])
+        import copy
         for ovo in (False, True):
-            for nm, params in [(names[0], None), (names[1], ({"gamma": 0.5} if which == "mmd" else None)), (names[2], ({"coef0": 2.0, "gamma": 3.0} if which == "mmd" else {"unused": 1}))]:
-                if which == "w" and params == {"unused": 1}:
-                    params = None
-                est = cls(**{attr: nm, pattr: params, "ovo": ovo})
+            cases = [(names[0], None), (names[1], {"gamma": 0.5}), (names[2], {"coef0": 2.0, "gamma": 3.0})] if which == "mmd" else \
+                    [(names[0], None), (names[0], {"squared": True}), (names[1], None), (names[2], None)]
+            for nm, params in cases:
+                try:
+                    est = cls(**{attr: nm, pattr: params, "ovo": ovo})
+                    before = copy.deepcopy(params)
+                    g = est.get_gemini()
+                    ok = isclass(g, gcls) and g.ovo is ovo and getattr(g, attr) == nm and getattr(g, pattr) == params
+                    checks.append((f"{cname}({attr}={nm!r}, {pattr}={params}, ovo={ovo}).get_gemini() is {gcls} with the same settings", ok, f"{cname}:get_gemini"))
+                    ok2 = True
+                    for rep_ in range(2):         # evaluated twice: the second evaluation must forward exactly the same parameters
+                        n0 = len(rec.calls)
+                        A = est.get_gemini().compute_affinity(X, None)
+                        c = rec.calls[n0:]
+                        ok2 = ok2 and len(c) == 1 and c[0]["what"] == what and c[0]["metric"] == nm and c[0]["params"] == (before or {}) and c[0]["X"] is X and c[0]["Y"] is None and A is c[0]["value"]
+                    ok2 = ok2 and getattr(est, pattr) == before and est.get_params()[pattr] == before
+                    checks.append((f"{cname}({nm!r}, {params}).compute_affinity(X) is pairwise_{what}s(X, metric={nm!r}, **params), on every evaluation, parameters left untouched", ok2, f"{cname}:affinity-named"))
+                except Exception as e:
+                    checks.append((f"{cname}({nm!r}, {params}): forwarding could not be executed symbolically ({type(e).__name__})", False, f"{cname}:affinity-named"))
+            # hyper-parameters changed with set_params between two uses of the same object
+            try:
+                p1 = {"gamma": 0.5} if which == "mmd" else {"squared": True}
+                p2 = {"gamma": 2.0} if which == "mmd" else None
+                est = cls(**{attr: names[1] if which == "mmd" else names[0], pattr: p1, "ovo": ovo})
+                est.get_gemini().compute_affinity(X, None)
+                est.set_params(**{pattr: p2})
                 g = est.get_gemini()
-                ok = isclass(g, gcls) and g.ovo is ovo and getattr(g, attr) == nm and getattr(g, pattr) == params
-                checks.append((f"{cname}({attr}={nm!r}, {pattr}={params}, ovo={ovo}).get_gemini() is {gcls} with the same settings", ok, f"{cname}:get_gemini"))
                 n0 = len(rec.calls)
-                A = g.compute_affinity(X, None)
-                c = rec.calls[n0:] if len(rec.calls) > n0 else []
-                ok2 = len(c) == 1 and c[0]["what"] == what and c[0]["metric"] == nm and c[0]["params"] == (params or {}) and c[0]["X"] is X and c[0]["Y"] is None and A is c[0]["value"]
-                checks.append((f"{cname}({nm!r}, {params}).compute_affinity(X) is pairwise_{what}s(X, metric={nm!r}, **params)", ok2, f"{cname}:affinity-named"))
+                g.compute_affinity(X, None)
+                c = rec.calls[n0:]
+                oks = getattr(g, pattr) == p2 and len(c) == 1 and c[0]["params"] == (p2 or {})
+                est.set_params(ovo=not ovo)
+                oks = oks and est.get_gemini().ovo is (not ovo)
+                est.set_params(**{attr: names[2]})
+                g = est.get_gemini()
+                n0 = len(rec.calls)
+                g.compute_affinity(X, None)
+                c = rec.calls[n0:]
+                oks = oks and getattr(g, attr) == names[2] and len(c) == 1 and c[0]["metric"] == names[2]
+            except Exception:
+                oks = False
+            checks.append((f"{cname}: set_params({pattr} / ovo / {attr}) between two uses is honoured by get_gemini and compute_affinity", oks, f"{cname}:set_params"))
             # precomputed
             est = cls(**{attr: "precomputed", "ovo": ovo})
             g = est.get_gemini()
@@ -382,6 +413,22 @@ def replay(rep, verbose=False):
                     continue
                 cls = getattr(loader.real(modn), cn)
                 gm = loader.real("gemini")
+                if (modn, cn) in MMD_EST + W_EST:
+                    # second evaluation / parameters untouched / set_params honoured (real scikit-learn kernels)
+                    import copy
+                    mmd = (modn, cn) in MMD_EST
+                    attr, pattr = ("kernel", "kernel_params") if mmd else ("metric", "metric_params")
+                    fn = pairwise_kernels if mmd else pairwise_distances
+                    nm, p1, p2 = ("rbf", {"gamma": 0.5}, {"gamma": 2.0}) if mmd else ("euclidean", {"squared": True}, None)
+                    est = cls(**{attr: nm, pattr: copy.deepcopy(p1)})
+                    for _ in range(2):
+                        if not np.allclose(est.get_gemini().compute_affinity(X), fn(X, metric=nm, **p1)):
+                            return True
+                    if est.get_params()[pattr] != p1:
+                        return True
+                    est.set_params(**{pattr: p2})
+                    if not np.allclose(est.get_gemini().compute_affinity(X), fn(X, metric=nm, **(p2 or {}))):
+                        return True
                 if (modn, cn) in MMD_EST:
                     for ovo in (False, True):
                         for nm, params in [("rbf", {"gamma": 0.5}), ("sigmoid", {"coef0": 2.0, "gamma": 3.0}), ("linear", None)]:
